@@ -280,6 +280,29 @@ func (m *machine) step(p *Pair) StepResult {
 	return r
 }
 
+// reconfigure: the operator edits batch_size / concurrency of one or all sources
+// before the next start (half of the time nothing changes). Call before Restart.
+func (m *machine) reconfigure() {
+	if !rapid.Bool().Draw(m.rt, "reconfigure") {
+		return
+	}
+	for _, s := range m.w.Sources {
+		batch := rapid.IntRange(1, m.o.MaxBatch).Draw(m.rt, "newbatch")
+		if rapid.IntRange(0, 2).Draw(m.rt, "batchone") == 0 {
+			batch = 1
+		}
+		conc := rapid.IntRange(1, m.o.MaxConc).Draw(m.rt, "newconc")
+		if m.o.BatchGEConc && batch < conc {
+			batch, conc = conc, batch
+		}
+		if batch != s.Batch || conc != s.Conc {
+			m.logf("config edit: %s batch %d->%d conc %d->%d", s.Name, s.Batch, batch, s.Conc, conc)
+			m.label("batch-changed")
+			s.Batch, s.Conc = batch, conc
+		}
+	}
+}
+
 func curStr(c Cursor) string {
 	if !c.OK {
 		return "-"
